@@ -45,6 +45,8 @@ type JobSpec struct {
 	Trace      bool              `json:"trace"`
 	SolverLog  string            `json:"solver_log"`
 	OneShotMin int               `json:"oneshot_min"`
+	FSModel    bool              `json:"fsmodel"`
+	MaxFaults  int               `json:"max_faults"`
 }
 
 type JobOut struct {
@@ -128,7 +130,7 @@ func main() {
 			job := interp.Job{
 				Package: js.Package, Func: js.Func, Params: js.Params, Math: js.Math, NoIfConv: js.NoIfConv,
 				Sched: js.Sched, Preempt: js.Preempt, Witnesses: js.Witnesses, KnownIDs: js.KnownIDs,
-				Solver: js.Solver, InitAllow: js.InitAllow, Models: js.Models, Trace: js.Trace, SolverLog: js.SolverLog, OneShotMin: js.OneShotMin,
+				Solver: js.Solver, InitAllow: js.InitAllow, Models: js.Models, Trace: js.Trace, SolverLog: js.SolverLog, OneShotMin: js.OneShotMin, FSModel: js.FSModel, MaxFaults: js.MaxFaults,
 			}
 			job.Limits = interp.Limits{MaxPaths: js.MaxPaths, MaxInstrs: js.MaxInstrs, Unwind: js.Unwind,
 				SplitCap: js.SplitCap, MaxViolations: js.MaxViol}
